@@ -33,6 +33,13 @@ impl Ctx {
     pub fn spawn_model(&self) -> Option<model::Model> {
         self.model_path.as_ref().map(|p| model::Model::spawn(p).expect("spawn model driver"))
     }
+    /// Leave a note of the case about to be evaluated (env VERIF_BREADCRUMB): if the real code
+    /// kills the process (allocation failure abort, stack overflow), `check` reports this case.
+    pub fn breadcrumb(v: &Value) {
+        if let Ok(p) = std::env::var("VERIF_BREADCRUMB") {
+            let _ = std::fs::write(p, v.to_string());
+        }
+    }
     /// Ask the model; `None` when running without a model (search-only mode).
     pub fn ask(&mut self, req: &str) -> Option<String> {
         self.model.as_mut().map(|m| m.ask(req))
